@@ -502,6 +502,15 @@ pub open spec fn full_merged<K, V>(a: Map<K, V>, b: Map<K, V>, r: Map<K, V>) -> 
 
 '''
 
+RUN_RULE = r'''
+// ---------------------------------------------------------------------------------------------------------
+// C09: the segment-codegen wrapper is semantically transparent: run_rule(f) returns exactly what f() returns
+//@fn ascent internal | run_rule | r
+    requires f.requires(()),
+    ensures f.ensures((), r),
+//@end
+'''
+
 EPILOGUE = '''
 } // verus!
 fn main() {}
@@ -509,4 +518,4 @@ fn main() {}
 
 
 def template():
-    return PRELUDE + TYPES + TRAITS + IMPLS + EPILOGUE
+    return PRELUDE + TYPES + TRAITS + IMPLS + RUN_RULE + EPILOGUE
